@@ -115,6 +115,8 @@ func (t *ATable) AddSeparator() Table {
 	t.rows = append(t.rows, sep)
 	sep.inTable = t
 	sep.rowNum = len(t.rows)
+	// errors recorded on the separator (eg, adding a cell to it) are table errors
+	sep.ErrorContainer = t.ErrorContainer
 	return t
 }
 
